@@ -19,7 +19,7 @@ use subjects::{derived::CA, vt::VT, Subject};
 /// Number of `impl .. EncodeLike` lines this table was written against (completeness tripwire).
 pub const IMPL_LINES_AT_PINNED_COMMIT: usize = 57;
 
-fn check_pair<A, B>(family: &str, a: &A, bv: &Value) -> Result<(), String>
+fn check_pair<A, B>(family: &str, a: &A, bv: &Value, bytes: bool) -> Result<(), String>
 where
 	A: EncodeLike<B> + Encode,
 	B: Encode + Decode + Subject,
@@ -27,7 +27,7 @@ where
 	let shape = B::shape();
 	let want = ref_enc(&shape, bv).map_err(|e| format!("{:?}", e))?;
 	let got = guarded(|| a.encode()).map_err(|p| format!("{}: encode panicked: {}", family, p))?;
-	if !shape.order_free() && got != want {
+	if bytes && !shape.order_free() && got != want {
 		return Err(format!("{}: the alias encodes to {} but the value it stands for encodes to {}", family, hex(&got), hex(&want)));
 	}
 	let mut s = &got[..];
@@ -62,6 +62,24 @@ impl Ctx<'_> {
 		A: EncodeLike<B> + Encode,
 		B: Encode + Decode + Subject,
 	{
+		self.fam_opt(family, make, true)
+	}
+
+	/// For a slice given in an order other than the container's own there is no byte string "of the
+	/// value it stands for"; only the decode clause of the property applies.
+	fn fam_decode_only<A, B>(&mut self, family: &'static str, make: impl Fn(&B) -> A)
+	where
+		A: EncodeLike<B> + Encode,
+		B: Encode + Decode + Subject,
+	{
+		self.fam_opt(family, make, false)
+	}
+
+	fn fam_opt<A, B>(&mut self, family: &'static str, make: impl Fn(&B) -> A, bytes: bool)
+	where
+		A: EncodeLike<B> + Encode,
+		B: Encode + Decode + Subject,
+	{
 		if let Some(o) = self.only {
 			if o != family {
 				return;
@@ -77,7 +95,7 @@ impl Ctx<'_> {
 			let a = make(&b);
 			self.acc.evaluations += 1;
 			self.acc.transitions += 2;
-			match check_pair::<A, B>(family, &a, &v) {
+			match check_pair::<A, B>(family, &a, &v, bytes) {
 				Ok(()) => {
 					self.acc.states += 1;
 					self.acc.traces += 1;
@@ -190,8 +208,14 @@ macro_rules! ordered_for {
 	($c:ident, $t:ty, $tn:literal) => {{
 		$c.fam::<BTreeSet<Box<$t>>, BTreeSet<$t>>(concat!("BTreeSet<Box<", $tn, ">> ~ BTreeSet<", $tn, ">"), |b| b.iter().cloned().map(Box::new).collect());
 		$c.fam::<&'static [($t,)], BTreeSet<$t>>(concat!("&[(", $tn, ",)] ~ BTreeSet<", $tn, ">"), |b| {
-			// a slice in *any* order: reversed, the decoded set must still be the same set
+			&*Box::leak(b.iter().cloned().map(|x| (x,)).collect::<Vec<_>>().into_boxed_slice())
+		});
+		$c.fam_decode_only::<&'static [($t,)], BTreeSet<$t>>(concat!("&[(", $tn, ",)] (reversed) ~ BTreeSet<", $tn, ">"), |b| {
+			// a slice in another order: the decoded set must still be the same set
 			&*Box::leak(b.iter().rev().cloned().map(|x| (x,)).collect::<Vec<_>>().into_boxed_slice())
+		});
+		$c.fam_decode_only::<&'static [($t, $t)], BTreeMap<$t, $t>>(concat!("&[(", $tn, ", ", $tn, ")] (reversed) ~ BTreeMap"), |b| {
+			&*Box::leak(b.iter().rev().map(|(k, v)| (k.clone(), v.clone())).collect::<Vec<_>>().into_boxed_slice())
 		});
 		$c.fam::<BinaryHeap<Box<$t>>, BinaryHeap<$t>>(concat!("BinaryHeap<Box<", $tn, ">> ~ BinaryHeap<", $tn, ">"), |b| b.iter().cloned().map(Box::new).collect());
 		$c.fam::<&'static [($t,)], BinaryHeap<$t>>(concat!("&[(", $tn, ",)] ~ BinaryHeap<", $tn, ">"), |b| {
